@@ -20,4 +20,31 @@ def build():
         if c.self_cls in ("Hypergraph", "DirectedHypergraph", "TemporalHypergraph", "MultiplexHypergraph") and \
                 c.path[-1] in ("add_node", "add_edge", "remove_edge", "remove_node", "clear") and "C07" not in c.properties:
             c.properties.append("C07")
+    _check_symbol_names()
     return reg
+
+
+def _check_symbol_names():
+    """Contract-module axioms are scoped per query by the NAMES of their symbols (theory.extra_for): two different functions with one name
+    would drag each other's axioms into unrelated queries (met once: a second `wsum` made two obligations of the multiplex aggregation fail
+    on the unchanged tree). Refuse to build such a registry."""
+    import z3
+    from ..pyvc import theory as TH
+    seen = {}
+    todo = list(TH.EXTRA.values()) + list(TH.THEORY.values())
+    visited = set()
+    while todo:
+        t = todo.pop()
+        if t.get_id() in visited:
+            continue
+        visited.add(t.get_id())
+        if z3.is_quantifier(t):
+            todo.append(t.body())
+            continue
+        if z3.is_app(t):
+            d = t.decl()
+            if d.kind() == z3.Z3_OP_UNINTERPRETED and d.arity() > 0:
+                sig = tuple(d.domain(i).sexpr() for i in range(d.arity())) + (d.range().sexpr(),)
+                if seen.setdefault(d.name(), sig) != sig:
+                    raise AssertionError(f"two different specification functions are both called {d.name()!r}")
+            todo.extend(t.children())
